@@ -153,3 +153,6 @@ Definition vbool (v : V) : bool := negb (vz v =? 0).
 Definition VB (b : bool) : V := VI (if b then 1 else 0).
 Definition VN (n : nat) : V := VI (Z.of_nat n).
 Definition verr (s : string) : V := VL [VS (bs "err"); VS (bs s)].
+
+Definition opname (v : V) : string := string_of_list_byte (vs_ v).
+Definition is_op (v : V) (s : string) : bool := String.eqb (opname v) s.
